@@ -79,7 +79,7 @@ def http_base(u: Unit, fold_case=False):
         u.every_body_start = '        broadcast use {case_facts::axiom_header_name_lower, case_facts::lemma_lower_idem};'
 
 
-def metadata_core(u: Unit, props_sanitize=('C08', 'C03', 'C04', 'C12'), fold_case=False):
+def metadata_core(u: Unit, props_sanitize=('C08', 'C03', 'C04', 'C12', 'C02'), fold_case=False):
     """the real MetadataMap struct, its reserved-name table and the straight-line constructors"""
     u.raw(RESERVED_SPEC)
     u.item(MM, 'struct', 'MetadataMap')
